@@ -18,6 +18,10 @@ pub(crate) const GC_INTERVAL: Duration = Duration::from_secs(30);
 /// How much time a `Peer` needs to be disconnected to expire.
 const EXPIRED_AFTER: Duration = Duration::from_secs(120);
 
+#[cfg(eigerco_lumina_verif)]
+#[path = "peer_tracker_verif_hooks.rs"]
+pub(crate) mod verif_hooks;
+
 /// Keeps track various information about peers.
 #[derive(Debug)]
 pub(crate) struct PeerTracker {
